@@ -40,11 +40,13 @@ pub enum DecErr {
 pub struct Cur<'a> {
     pub b: &'a [u8],
     pub pos: usize,
+    /// a block written with a negative count announces its size in bytes: insist that it is right
+    pub strict_sizes: bool,
 }
 
 impl<'a> Cur<'a> {
     pub fn new(b: &'a [u8]) -> Self {
-        Cur { b, pos: 0 }
+        Cur { b, pos: 0, strict_sizes: false }
     }
     pub fn take(&mut self, n: usize) -> Result<&'a [u8], DecErr> {
         if self.b.len() - self.pos < n {
@@ -299,7 +301,16 @@ fn enc(node: &SNode, v: &V, env: &Env, layout: &mut Layout, stats: &mut LayoutSt
 
 // ------------------------------------------------------------ decoder
 
+/// Strict decoder for encoder output: a block's announced byte size must be the size of its items.
 pub fn decode(node: &SNode, env: &Env, bytes: &[u8]) -> Result<(V, usize), DecErr> {
+    let mut cur = Cur::new(bytes);
+    cur.strict_sizes = true;
+    let v = dec(node, env, &mut cur, 0)?;
+    Ok((v, cur.pos))
+}
+
+/// For arbitrary input: block byte sizes are read and ignored (as a reader that does not skip does).
+pub fn decode_any_sizes(node: &SNode, env: &Env, bytes: &[u8]) -> Result<(V, usize), DecErr> {
     let mut cur = Cur::new(bytes);
     let v = dec(node, env, &mut cur, 0)?;
     Ok((v, cur.pos))
@@ -411,7 +422,7 @@ fn dec(node: &SNode, env: &Env, cur: &mut Cur, depth: usize) -> Result<V, DecErr
         SType::Array(items) => {
             let mut out = vec![];
             loop {
-                let n = block_count(cur)?;
+                let (n, end) = block_count(cur)?;
                 if n == 0 {
                     break;
                 }
@@ -421,13 +432,14 @@ fn dec(node: &SNode, env: &Env, cur: &mut Cur, depth: usize) -> Result<V, DecErr
                     }
                     out.push(dec(items, env, cur, depth + 1)?);
                 }
+                block_end(cur, end)?;
             }
             Ok(V::Array(out))
         }
         SType::Map(values) => {
             let mut out: Vec<(String, V)> = vec![];
             loop {
-                let n = block_count(cur)?;
+                let (n, end) = block_count(cur)?;
                 if n == 0 {
                     break;
                 }
@@ -442,6 +454,7 @@ fn dec(node: &SNode, env: &Env, cur: &mut Cur, depth: usize) -> Result<V, DecErr
                         out.push((k, v));
                     }
                 }
+                block_end(cur, end)?;
             }
             Ok(V::Map(out))
         }
@@ -456,16 +469,30 @@ fn dec(node: &SNode, env: &Env, cur: &mut Cur, depth: usize) -> Result<V, DecErr
     }
 }
 
-fn block_count(cur: &mut Cur) -> Result<u64, DecErr> {
+/// (item count, position at which the block must end if it announced its size)
+fn block_count(cur: &mut Cur) -> Result<(u64, Option<usize>), DecErr> {
     let n = cur.long()?;
     if n < 0 {
-        let _size = cur.long()?;
+        let size = cur.long()?;
         if n == i64::MIN {
             return Err(DecErr::Bad("block count overflow".into()));
         }
-        Ok((-n) as u64)
+        if !cur.strict_sizes {
+            return Ok(((-n) as u64, None));
+        }
+        if size < 0 {
+            return Err(DecErr::Bad(format!("negative block byte size {size}")));
+        }
+        Ok(((-n) as u64, Some(cur.pos.saturating_add(size as usize))))
     } else {
-        Ok(n as u64)
+        Ok((n as u64, None))
+    }
+}
+
+fn block_end(cur: &Cur, end: Option<usize>) -> Result<(), DecErr> {
+    match end {
+        Some(e) if cur.strict_sizes && e != cur.pos => Err(DecErr::Bad(format!("block announced to end at offset {e} but its items end at {}", cur.pos))),
+        _ => Ok(()),
     }
 }
 
